@@ -386,7 +386,33 @@ def c15():
     }
 
 
+def c14():
+    import suite_mr
+    return {
+        "props_file": "Props/C14.v",
+        "theorems": ["C14_rerun_equals_fresh", "C14_rerun_frame", "C14_globs_are_purged", "C14_cleanup",
+                     "C14_no_partial_final", "C14_run_is_writes", "C14_failed_run_no_final"],
+        "model_files": ["Model/Multiround.v", "Gen/GMr.v", "Proofs/GenTieMr.v"],
+        "suites": [suite_mr.suite_crash, suite_mr.suite_mr_files],
+        "search": suite_mr.search_mr("C14"),
+        "replay": suite_mr.replay_c14,
+        "level": "proof",
+        "rule": "crash: the real run_multiround_bitbirch is interrupted (exception) at EVERY file action "
+                "(open-for-write, pickle.dump, rename) of a run, foreign files are added, and a re-run "
+                "(same / changed threshold / fewer files) is made in the same directory; final files are "
+                "compared with a fresh directory and the whole directory with Model/Multiround.v run on "
+                "the leftovers; multiround-files: whole output directories vs the model from an empty "
+                "directory; non-trivial = each (configuration, crash point) evaluated",
+        "trusted": COMMON_TRUST + ["POSIX rename atomicity; a crash is modelled as stopping between two file "
+                                   "actions (a torn single write leaves a file whose name is purged by the next run)",
+                                   "translator tie for file names/globs: Gen/GMr.v + Proofs/GenTieMr.v"],
+        "assumptions": ["fexp is a universally quantified parameter of every C14 theorem",
+                        "dir_wf d0: a directory listing has distinct names (sorted by the model)"],
+    }
+
+
 SPECS = {
+    "C14": c14,
     "C01": c01,
     "C15": c15,
     "C19": c19,
